@@ -100,6 +100,8 @@ void File::copy_from(FILE* from, FILE* to)
 
 void File::write_entire_contents_to(FILE* file)
 {
+    // NOTE: rewind would also flush, but it throws away any error in doing so.
+    fflush(m_file, "Error occurred writing to file");
     std::rewind(m_file);
     copy_from(m_file, file);
 }
